@@ -153,7 +153,8 @@ static const int w_timeouts[] = { 0, 1, 2, 3, -1, -2 };
 static const int w_deadlines[] = { 0, 1, 2, 3, INT_MAX };
 #define NWT 6
 #define NWD 5
-#define NWC 5 /* child: idle, exits by itself, two waits in a row on an idle child, forked (child side first), forked (parent first) */
+#define NWC 8 /* child: idle, exits by itself, two waits in a row on an idle child, forked (child side first), forked (parent first),
+                * exited before the call, exited before the call that comes 4 ms late (after every finite deadline), idle and the call 4 ms late */
 
 static void c08_wait_cfg(int ti, int di, int ci, int tier)
 {
@@ -170,9 +171,9 @@ static void c08_wait_cfg(int ti, int di, int ci, int tier)
   vk_cfg.fault_bound = 1;
   vk_cfg.fault_calls = 1ull << C_POLL;
   vk_cfg.total_bound = tier ? 2 : 1;
-  snprintf(key8, sizeof key8, "h_c08|wait(%d)|deadline=%d|child=%s", timeout, deadline, ci == 1 ? "exits" : ci == 3 ? "forked,child-side-first" : ci == 4 ? "forked,parent-first" : "idle");
+  snprintf(key8, sizeof key8, "h_c08|wait(%d)|deadline=%d|child=%s", timeout, deadline, ci == 1 ? "exits" : ci == 3 ? "forked,child-side-first" : ci == 4 ? "forked,parent-first" : ci == 5 ? "exited-before-the-call" : ci == 6 ? "exited-before-the-late-call" : ci == 7 ? "idle,late-call" : "idle");
   hx_desc("%s|%s", key8, ci == 2 ? "twice" : "once");
-  snprintf(key8, sizeof key8, "h_c08|wait|timeout=%s|deadline=%s%s", timeout == -1 ? "infinite" : timeout == -2 ? "until-deadline" : "finite", deadline ? "set" : "none", ci >= 3 ? "|fork-mode" : "");
+  snprintf(key8, sizeof key8, "h_c08|wait|timeout=%s|deadline=%s%s", timeout == -1 ? "infinite" : timeout == -2 ? "until-deadline" : "finite", deadline ? "set" : "none", ci == 3 || ci == 4 ? "|fork-mode" : ci >= 5 ? "|late" : "");
   hx_begin();
   vk_set_hang_hook(c08_hang);
   vk_autonomous_gap_ms = 500;
@@ -182,9 +183,17 @@ static void c08_wait_cfg(int ti, int di, int ci, int tier)
   reproc_options o;
   memset(&o, 0, sizeof o);
   o.deadline = dl_ms(deadline);
-  if (ci >= 3) proc_start_fork(&q, "", o, ci == 3);
-  else proc_start(&q, ci == 1 ? "X4" : "", o);
-  for (int round = 0; round < (ci == 2 || ci >= 3 ? 2 : 1); round++) {
+  if (ci == 3 || ci == 4) proc_start_fork(&q, "", o, ci == 3);
+  else proc_start(&q, ci == 1 || ci == 5 || ci == 6 ? "X4" : "", o);
+  if (ci == 5 || ci == 6) {
+    /* (a scheduling deviation during start may have let it exit already) */
+    if (q.c->state == CH_RUNNING) {
+      if (!vk_child_enabled(q.c)) vk_finish(OUT_INFRA, "the helper cannot exit");
+      vk_child_step(q.c);
+    }
+  }
+  if (ci == 6 || ci == 7) vk_advance(4);
+  for (int round = 0; round < (ci == 2 || ci == 3 || ci == 4 ? 2 : 1); round++) {
     int64_t t0 = vk_now();
     g_t0 = t0;
     int64_t bound = timeout >= 0 ? t0 + timeout : timeout == -1 ? NOD : (q.D == NOD ? NOD : (q.D > t0 ? q.D : t0));
